@@ -22,15 +22,34 @@ EXPLANATION = (
     "writers are added only in publish()/update() before the first _push, True is the only value stored "
     "elsewhere; (7) update_goal places homeless shares only with a non-empty server list and raises "
     "NotEnoughServersError otherwise; (8) the write proxies return the remote test-and-set call's own Deferred "
-    "(callbacks added in layout.py are pass-through), so 'wrote' is the server's verdict. "
-    "Undecided: that a server answering wrote=True really stored the data, DictOfSets arithmetic, Deferred "
-    "scheduling inside Twisted.")
+    "(callbacks added in layout.py are pass-through), so 'wrote' is the server's verdict; (5b) publish()/update() "
+    "return self.done_deferred on every normal path; (10) every normal exit of _push that has not observed both "
+    "required_shares <= len(self.writers) and not self.surprised has called self._failure(), so too few live writers "
+    "always end in an error report; (11) publish()/update() file each writer in self.writers under the share number "
+    "it was built for (first constructor argument), and both write proxies keep exactly that number in self.shnum, so "
+    "len(self.writers) counts distinct share numbers and _connection_problem discards under the same key; (12) "
+    "StorageServer.slot_testv_and_readv_and_writev answers (verdict, read_data) where verdict is the result of "
+    "_evaluate_test_vectors (or a constant refusal), and every return on which that verdict has not been observed "
+    "false has called _evaluate_write_vectors - a true acknowledgement means the write vectors were applied; (9) "
+    "adopted from C12: non-empty test vectors pinned to the surveyed version (C12.1-3, C12.15), sticky whole-checkstring "
+    "surprise detection over a surprise set that starts from every share of the answer (C12.4, C12.11), the answer "
+    "reaches the handler unchanged (C12.5), no local of _got_write_answer is read unbound before the marking "
+    "(C12.10: the NameError would be swallowed by the DeferredList), and the server applies write vectors only under a "
+    "passed test-vector evaluation that stops at the first failing vector (C12.9). "
+    "Undecided: what _evaluate_write_vectors / MutableShareFile.writev put on disk, the byte comparison inside "
+    "check_testv, the wire conversion between client and server (C31), the bytes of the shares (hash trees, "
+    "signature, offsets - a publish of malformed shares is still acknowledged), exceptions other than unbound names "
+    "raised inside _got_write_answer before self.surprised = True (swallowed by the DeferredList, value-level), that "
+    "finish_publishing's loops visit every live writer (iteration narrowing is value-level), which servers update_goal "
+    "picks and whether k distinct servers are used, liveness of the success path (_done's _running guard, returned "
+    "Deferreds of push_segment/push_everything_else), DictOfSets arithmetic, Deferred scheduling inside Twisted.")
 TECHNIQUE = "static analysis: CFG path rules with linear edge facts, who-may-call/who-may-write sweeps, Deferred chain model"
 
 PUB = "mutable.publish:Publish"
 SDMFW = "mutable.layout:SDMFSlotWriteProxy"
 MDMFW = "mutable.layout:MDMFSlotWriteProxy"
 REMOTE = "slot_testv_and_readv_and_writev"
+SRV = "storage.server:StorageServer"
 
 _W_ATOM = re.compile(r"^len\((?:set\(|list\()?self\.writers(?:\.keys\(\))?\)?\)$")
 
@@ -467,8 +486,11 @@ def run(ctx: Context):
 
     # -- 5. _failure ---------------------------------------------------------
     with ctx.rule("C47.5", "R3/R4", "_failure delivers NotEnoughServersError (not surprised) / UncoordinatedWriteError "
-                  "(surprised) to done_deferred; only _done and _failure fire done_deferred", expected=3) as r:
+                  "(surprised) to done_deferred; only _done and _failure fire done_deferred; publish()/update() return it",
+                  expected=5) as r:
         _failure_mapping(r, idx.func(PUB + "._failure"))
+        for mname in ("publish", "update"):
+            _returns_result_deferred(r, idx.func(PUB + "." + mname))
         allowed_fire = {idx.func(PUB + "._done").qual, idx.func(PUB + "._failure").qual}
         creators = {idx.func(PUB + ".publish").qual, idx.func(PUB + ".update").qual}
         nrefs = 0
@@ -546,8 +568,211 @@ def run(ctx: Context):
                   "callbacks added in layout.py are pass-through", expected=2) as r:
         _proxy_returns_remote(r, idx)
 
+    # -- 10. too few live writers / a surprise is reported, not dropped ------
+    with ctx.rule("C47.10", "R3", "_push: every normal exit that has not observed both required_shares <= "
+                  "len(self.writers) and not self.surprised has called self._failure()", expected=2) as r:
+        _push_reports_failure(r, idx.func(PUB + "._push"))
+
+    # -- 11. len(self.writers) counts distinct share numbers ------------------
+    with ctx.rule("C47.11", "R1", "publish()/update() file every writer in self.writers under the share number the "
+                  "writer was built for; both write proxies keep that number in self.shnum (the key "
+                  "_connection_problem discards and the key of the test-and-write vector)", expected=4) as r:
+        _writers_keyed_by_shnum(r, idx)
+
+    # -- 12. the server's acknowledgement is honest ---------------------------
+    with ctx.rule("C47.12", "R3", "StorageServer.slot_testv_and_readv_and_writev: every normal return whose verdict (first "
+                  "element) has not been observed false has applied the write vectors (_evaluate_write_vectors)",
+                  expected=2) as r:
+        _ack_means_written(r, idx.func(SRV + "." + REMOTE))
+
 
 # --------------------------------------------------------------- shared parts
+def _push_reports_failure(r, push):
+    cfg = push.cfg()
+    fnorm = FlowNorm(push)
+    enough = _enough_writers(fnorm)
+    calm = _fact_gate(fnorm, lambda op, l, rr: op == "false" and l == "self.surprised")
+    kill_w = stores_any(["self.writers", "self.required_shares"])
+    kill_s = stores("self.surprised")
+
+    def fails(n):
+        return any(call_name(c) == "self._failure" for c in node_calls(n))
+    # (no self._failure() call at all is a violation of the path rule below, not a vanished anchor)
+    r.site(push, None, "failure report sites: %d" % len(cfg.find(fails)))
+
+    def transfer(n, lab, nxt, st):
+        ok_w, ok_s, failed = st
+        if n.kind in ("entry", "exit", "raise"):
+            return st
+        if ok_w and kill_w(n):
+            ok_w = False
+        if ok_s and kill_s(n):
+            ok_s = False
+        if enough(n, lab):
+            ok_w = True
+        if calm(n, lab):
+            ok_s = True
+        if lab != "exc" and fails(n):
+            failed = True
+        return (ok_w, ok_s, failed)
+    visited, parent = explore(cfg, (False, False, False), transfer)
+    r.count(len(visited))
+    r.site(push, None, "exits")
+    seen = set()
+    for (nid, st) in sorted(visited):
+        if cfg.nodes[nid].kind != "exit":
+            continue
+        ok_w, ok_s, failed = st
+        if failed or (ok_w and ok_s):
+            continue
+        what = "enough live writers" if not ok_w else "no surprise"
+        if what in seen:
+            continue
+        seen.add(what)
+        w = witness(cfg, parent, (nid, st))
+        r.violation(push, push.loc(), "_push can return without calling self._failure() although it has not observed %s: "
+                    "a publish that cannot place k shares (or met an unexpected version) never reports its error "
+                    "(path: %s)" % (what, w.brief()), w)
+
+
+def _writers_keyed_by_shnum(r, idx):
+    n_add = 0
+    for mname in ("publish", "update"):
+        f = idx.func(PUB + "." + mname)
+        cfg = f.cfg()
+        fnorm = FlowNorm(f)
+        for n in cfg.nodes:
+            for c in node_calls(n):
+                if call_name(c) != "self.writers.add":
+                    continue
+                n_add += 1
+                r.site(f, c, "writer filed")
+                if len(c.args) != 2 or c.keywords:
+                    r.violation(f, f.loc(c), "self.writers.add is not called as add(shnum, writer)")
+                    continue
+                key, wexp = c.args
+                made = fnorm.resolve(n, wexp)
+                ok = isinstance(made, ast.Call) and made.args and not isinstance(made.args[0], ast.Starred)
+                if not ok:
+                    r.violation(f, f.loc(c), "%s files %s in self.writers, which is not a freshly built write proxy" % (
+                        short(f), src(f, wexp)))
+                    continue
+                # norm at the defining statement == norm at the add: the loop variable is the same binding
+                built_for = fnorm.norm(n, made.args[0])
+                r.require(fnorm.norm(n, key) == built_for, f, f.loc(c),
+                          "%s files the writer built for share %s under the key %s: len(self.writers) no longer counts "
+                          "distinct share numbers" % (short(f), src(f, made.args[0]), src(f, key)))
+    if n_add < 2:
+        raise AnchorVanished("publish()/update() no longer add writers to self.writers")
+    for q in (SDMFW, MDMFW):
+        ci = idx.cls(q)
+        init = ci.methods.get("__init__")
+        if init is None:
+            raise AnchorVanished("%s.__init__ vanished" % q)
+        ps = first_positional_params(init)
+        if not ps:
+            raise AnchorVanished("%s.__init__ takes no share number" % q)
+        r.site(init, None, "self.shnum")
+        found = False
+        for g in _class_funcs(ci):
+            for n in g.cfg().nodes:
+                if "self.shnum" not in node_stores(n):
+                    continue
+                v = assign_value(n, "self.shnum")
+                if v is not None:
+                    v = FlowNorm(g).resolve(n, v)
+                good = g is init and isinstance(v, ast.Name) and v.id == ps[0] and \
+                    not any(ps[0] in node_stores(m) for m in g.cfg().nodes)
+                found = found or good
+                r.require(good, g, g.loc(n.ast), "%s stores %s into self.shnum, not the share number the proxy was built for" % (
+                    short(g), src(g, v) if v is not None else "?"))
+        if not found:
+            raise AnchorVanished("%s.__init__ no longer stores its share number in self.shnum" % q)
+
+
+def _truth_source(fnorm, n, e):
+    """(polarity, defining AST) of a truth test / value: strips `not`, bool(..) and plain-name copies."""
+    pol = True
+    for _ in range(8):
+        if isinstance(e, ast.UnaryOp) and isinstance(e.op, ast.Not):
+            e, pol = e.operand, not pol
+        elif isinstance(e, ast.Call) and isinstance(e.func, ast.Name) and e.func.id == "bool" and len(e.args) == 1 \
+                and not e.keywords:
+            e = e.args[0]
+        elif isinstance(e, ast.Name):
+            d = fnorm.resolve(n, e)
+            if d is e:
+                break
+            e = d
+        else:
+            break
+    return pol, e
+
+
+def _ack_means_written(r, fn):
+    cfg = fn.cfg()
+    fnorm = FlowNorm(fn)
+    writes = has_call("_evaluate_write_vectors")
+    wn = cfg.find(writes)
+    if not wn:
+        raise AnchorVanished("no _evaluate_write_vectors call in %s" % short(fn))
+    r.site(fn, wn[0].ast, "write vectors applied")
+    rets = cfg.find(is_return)
+    if not rets:
+        raise AnchorVanished("%s returns nothing" % short(fn))
+    r.site(fn, rets[0].ast, "verdict returned")
+    for (n, w) in find_path_avoiding(cfg, lambda n: n.kind == "exit", gate_node=is_return, skip_exc_edges=True):
+        r.violation(fn, fn.loc(), "%s can fall off its end without an answer" % short(fn), w)
+    r.count(len(cfg.nodes) * len(rets))
+
+    def refused_by(src_node):
+        """Edge gate: the edge has observed the value defined by `src_node` to be false."""
+        def gate(n, lab):
+            if n.kind != "test" or not isinstance(lab, tuple) or lab[0] not in ("T", "F"):
+                return False
+            pol, e = _truth_source(fnorm, n, n.ast)
+            return e is src_node and pol != (lab[0] == "T")
+        return gate
+    verdict_calls = [c for n in cfg.nodes for c in calls_at(n, "_evaluate_test_vectors")]
+    for ret in rets:
+        v = fnorm.resolve(ret, ret.ast.value) if ret.ast.value is not None else None
+        if not (isinstance(v, ast.Tuple) and len(v.elts) == 2):
+            r.violation(fn, fn.loc(ret.ast), "%s returns %s, not (verdict, read_data)" % (short(fn), src(fn, ret.ast.value)))
+            continue
+        pol, vsrc = _truth_source(fnorm, ret, v.elts[0])
+        if isinstance(vsrc, ast.Constant):
+            if bool(vsrc.value) == pol:
+                r.violation(fn, fn.loc(ret.ast), "%s answers with the constant verdict %s: the acknowledgement no longer "
+                            "says whether the test vectors passed and the share was written" % (short(fn), src(fn, v.elts[0])))
+            continue                       # a constant refusal acknowledges nothing
+        if not pol or not any(vsrc is c for c in verdict_calls):
+            r.violation(fn, fn.loc(ret.ast), "%s answers with %s, which is not the result of _evaluate_test_vectors" % (
+                short(fn), src(fn, v.elts[0])))
+            continue
+        for (t, w) in find_path_avoiding(cfg, lambda x, _r=ret: x is _r, gate_node=writes, gate_edge=refused_by(vsrc),
+                                         skip_exc_edges=True):
+            r.violation(fn, fn.loc(ret.ast), "%s can answer with a true verdict (%s) without having applied the write vectors: "
+                        "the publisher counts a share the server never stored (path: %s)" % (
+                            short(fn), src(fn, v.elts[0]), w.brief()), w)
+
+
+def _returns_result_deferred(r, f):
+    """publish()/update(): every normal exit returns self.done_deferred."""
+    cfg = f.cfg()
+    fnorm = FlowNorm(f)
+
+    def ret_dd(n):
+        return is_return(n) and n.ast.value is not None and fnorm.norm(n, n.ast.value) == "self.done_deferred"
+    if not cfg.find(is_return):
+        raise AnchorVanished("%s has no return statement" % short(f))
+    r.site(f, None, "returns the result Deferred")
+    for (n, w) in find_path_avoiding(cfg, lambda n: n.kind == "exit", gate_node=ret_dd, skip_exc_edges=True):
+        r.violation(f, f.loc(), "%s can return something other than self.done_deferred: the caller never sees the result "
+                    "that _done/_failure deliver (path: %s)" % (short(f), w.brief()), w)
+        break
+
+
+
 def _not_wrote_surprised(r, ga):
     """Every normal exit of _got_write_answer with wrote false has stored self.surprised = True."""
     cfg = ga.cfg()
@@ -754,4 +979,4 @@ _run_publish_recoverable = run
 
 def run(ctx: Context):   # noqa: F811
     _run_publish_recoverable(ctx)
-    ctx.include("C12", ["C12.4", "C12.5"], "C47.9")
+    ctx.include("C12", ["C12.1", "C12.2", "C12.3", "C12.4", "C12.5", "C12.9", "C12.10", "C12.11", "C12.15"], "C47.9")
